@@ -223,6 +223,10 @@ camera_execute_trigger(struct Camera* self)
 {
     if (!self)
         return Device_Err;
+    if (self == V_(0).source.camera)
+        ag.trig[0]++;
+    if (self == V_(1).source.camera)
+        ag.trig[1]++;
     return nd_bool() ? Device_Ok : Device_Err;
 }
 
@@ -434,6 +438,11 @@ thread_join_impl(const int s, const int k)
          * ring (the client holds its data) is released by the refuse signal only, and stays
          * released only while the channel keeps refusing (channel_write_map re-tests the
          * flag after waking) */
+        /* a source whose camera waits for a software trigger returns from its frame call only
+         * when the trigger is fired: abort has to do that before it joins the source */
+        if (k == 0)
+            VASSERT(!(ag.n_refuse[s] > 0 && V_(s).source.camera != 0 && ag.trig[s] == 0),
+                    "[C07.trigger-fired-before-source-join] abort joins a source worker without having fired its camera's software trigger: a camera waiting for a trigger never returns the frame call and the join never returns");
         if (k == 0 || k == 1)
             VASSERT(!(ag.n_refuse[s] > 0 && ag.accept[s] == 1),
                     "[C07.refused-until-writers-joined] abort re-accepted writes on the sink channel before a worker that writes into it (source, filter) was joined: a writer asleep on a full ring is not released and the join never returns");
